@@ -117,10 +117,30 @@ class NumericElements(Harness):
         return c
 
     def native(self, inputs, label):
-        return []
+        n = len([x for x in inputs if re.match(r'^c\d+$', x)])
+        text = ''.join(chr(int(inputs['c%d' % i])) for i in range(n))
+        return [{'mode': 'parse_date', 'element': inputs['el'], 'tokens': [{'kind': 'Number', 'text': text}]}]
 
     def judge(self, inputs, label, obs):
-        return 'kernel-only', 'pattern element %s' % inputs.get('el')
+        o = obs[0]
+        if o.get('outcome') != 'ok':
+            return True, 'parse_date: %s %s' % (o.get('outcome'), o.get('panic', ''))
+        el = inputs['el']
+        text = o_text = None
+        n = len([x for x in inputs if re.match(r'^c\d+$', x)])
+        text = ''.join(chr(int(inputs['c%d' % i])) for i in range(n))
+        lens, lo, hi, eff = NUMERIC[el]
+        v = int(text)
+        valid = n in lens and lo <= v <= hi
+        if not o['ok']:
+            return (valid, '%s on %r refused: %s' % (el, text, o.get('error')))
+        if not valid:
+            return True, '%s accepts %r (documented: %s digits in %d..=%d)' % (el, text, lens, lo, hi)
+        want = {f: (fn(v) if not isinstance(fn(v), float) else int(fn(v))) for f, fn in eff}
+        want = {f: int(x) for f, x in want.items()}
+        if el == 'hour24':
+            want = {'hour_div_12': v // 12, 'hour_mod_12': v % 12}
+        return (o['fields'] != want), '%s on %r sets %s, documented %s' % (el, text, o['fields'], want)
 
 
 class Seconds(Harness):
@@ -168,13 +188,25 @@ class Seconds(Harness):
         return chr(int(inputs['s0'])) + chr(int(inputs['s1'])) + '.' + ''.join(chr(int(inputs['f%d' % i])) for i in range(k))
 
     def native(self, inputs, label):
-        return [{'mode': 'query', 'text': '#2020-01-01 00:00:%s#' % self._text(inputs)}]
+        t = self._text(inputs)
+        ss, _, ff = t.partition('.')
+        return [{'mode': 'parse_date', 'element': 'sec', 'tokens': [{'kind': 'Number', 'text': ss, 'frac': ff}]},
+                {'mode': 'query', 'text': '#2020-01-01 00:00:%s#' % t}]
 
     def judge(self, inputs, label, obs):
-        q = obs[0]
+        o, q = obs
+        t = self._text(inputs)
         if q.get('outcome') == 'panic' or q.get('render_panic'):
-            return True, '`#2020-01-01 00:00:%s#` panics: %s' % (self._text(inputs), q.get('panic') or q.get('render_panic'))
-        return False, str(q.get('display'))[:100]
+            return True, '`#2020-01-01 00:00:%s#` panics: %s' % (t, q.get('panic') or q.get('render_panic'))
+        if o.get('outcome') != 'ok':
+            return True, 'parse_date: %s %s' % (o.get('outcome'), o.get('panic', ''))
+        ss, _, ff = t.partition('.')
+        if not o['ok']:
+            return (len(ff) <= 9 and int(ss) <= 60), 'sec on %r refused: %s' % (t, o.get('error'))
+        if len(ff) > 9:
+            return True, 'sec accepts %d fraction digits: %s' % (len(ff), o['fields'])
+        want = {'second': int(ss), 'nanosecond': int(ff) * 10 ** (9 - len(ff))}
+        return (o['fields'] != want), 'sec on %r sets %s, documented %s' % (t, o['fields'], want)
 
 
 class Offset(Harness):
